@@ -29,7 +29,7 @@ CONSTANTS BCs,            \* pool of BC object identities
           UserSharing,    \* BOOLEAN: users may pass one BC object to several variables
           ManualReset,    \* BOOLEAN: x.modified = ... assignments are in the alphabet
           UserNoPrecalc,  \* BOOLEAN: CellVariable(..., BCsTerm_precalc=False) is in the alphabet
-          Hows,           \* ways of editing a BC side: subset of {"coef","slice","utility","periodic"}
+          Hows,           \* ways of editing a BC side: subset of {"coef","slice","utility","periodic","aonly","bonly","conly"}
           BuildKinds      \* builder names exercised by the Build action
 
 None == -1
@@ -140,7 +140,8 @@ NewVarDefault(v, b) ==
   /\ last' = [name |-> "NewVarDefault", args |-> <<v, b>>]
 
 (* face.a = x, face.a[sl] = x, defaultNoFlux / fixedValue / fixedGradient / newtonCooling,
-   face.periodic = flag : content changes, the side becomes dirty *)
+   face.periodic = flag, or ONE coefficient alone through its property ("aonly" / "bonly" / "conly"):
+   content changes, the side becomes dirty *)
 EditBC(b, s, how) ==
   /\ bcAlive[b] /\ s \in Sides
   /\ bcC' = [bcC EXCEPT ![b] = FreshBC]
